@@ -142,6 +142,34 @@ class _Abort(Exception):
     pass
 
 
+def unit_free(a):
+    """no premade unit anywhere inside the JSON value (then the value can outlive a build)"""
+    if isinstance(a, dict):
+        if 'u' in a:
+            return False
+        for k in ('t', 'l', 'c'):
+            if k in a:
+                return all(unit_free(x) for x in a[k])
+    return True
+
+
+def dump(x):
+    """type-tagged structure of a caller-owned argument object (to see whether a call changed it)"""
+    if isinstance(x, tuple):
+        return ['t'] + [dump(i) for i in x]
+    if isinstance(x, list):
+        return [type(x).__name__] + [dump(i) for i in x]
+    if x is None or isinstance(x, (bool, int, float, str)):
+        return repr(x)
+    return '<' + type(x).__name__ + '>'
+
+
+def shared_report(shared):
+    """(number of caller-owned sequences, list of paths whose object was modified)"""
+    paths = [k for k in shared if not k.startswith('#')]
+    return len(paths), sorted(p for p in paths if dump(shared[p]) != shared['#' + p])
+
+
 _state = {}
 
 
@@ -213,8 +241,10 @@ class Ctx:
         self.sd = None
         self.n0 = 0
 
-    def value(self, a):
-        """JSON value -> real Python value"""
+    def value(self, a, path='v'):
+        """JSON value -> real Python value.  Sequences without units (numbers, strings, None only, at
+        any depth) are CALLER-OWNED constants: when `self.shared` is set they are created once per case
+        and the very same Python object is handed to every build (see `run_twice`)."""
         ugn = _state['ugn']
         if a is None or isinstance(a, (int, float)):
             return a
@@ -224,12 +254,22 @@ class Ctx:
             return a['s']
         if 'r' in a:
             return a['r']
+        shared = getattr(self, 'shared', None)
+        if shared is not None and unit_free(a):
+            if path not in shared:
+                shared[path] = self._fresh(a, path)
+                shared['#' + path] = dump(shared[path])
+            return shared[path]
+        return self._fresh(a, path)
+
+    def _fresh(self, a, path):
+        ugn = _state['ugn']
         if 't' in a:
-            return tuple(self.value(x) for x in a['t'])
+            return tuple(self.value(x, f'{path}.{i}') for i, x in enumerate(a['t']))
         if 'l' in a:
-            return [self.value(x) for x in a['l']]
+            return [self.value(x, f'{path}.{i}') for i, x in enumerate(a['l'])]
         if 'c' in a:
-            return ugn.ChannelList([self.value(x) for x in a['c']])
+            return ugn.ChannelList([self.value(x, f'{path}.{i}') for i, x in enumerate(a['c'])])
         raise ValueError(a)
 
     def mark(self):
@@ -388,14 +428,15 @@ class Recorder:
 
 
 def run_ctor(case):
-    cls_box = {}
+    shared = {}
 
     def observed():
         cls = _get_cls(case)
         pre = make_pre(case['pre'])
         ctx = Ctx(case, pre)
+        ctx.shared = shared
         ctx.mark()
-        args = [ctx.value(a) for a in case['args']]
+        args = [ctx.value(a, f'a{i}') for i, a in enumerate(case['args'])]
         out = {}
         with Recorder(cls, ctx) as rec:
             try:
@@ -427,10 +468,13 @@ def run_ctor(case):
         out['nunits'] = len(ctx.created())
         return out
     obs, e1 = in_build(observed)
+    obs2, e3 = in_build(observed)
     exp, e2 = in_build(expected)
-    if e1 or e2:
-        return {'infra': f'{e1!r} {e2!r}'}
-    return {'obs': obs, 'exp': exp}
+    if e1 or e2 or e3:
+        return {'infra': f'{e1!r} {e2!r} {e3!r}'}
+    n, changed = shared_report(shared)
+    return {'obs': obs, 'exp': exp, 'again_same': obs2 == obs, 'again': None if obs2 == obs else obs2,
+            'nshared': n, 'args_changed': changed}
 
 
 # ---- operators and methods in a build -------------------------------------------------------------
@@ -577,16 +621,19 @@ def run_out(case):
     def get():
         return getattr(_state['iou'], case['cls'])
 
+    shared = {}
+
     def observed():
         cls = get()
         pre = make_pre(case['pre'])
         ctx = Ctx(case, pre)
+        ctx.shared = shared
         ctx.mark()
         out = {}
         with Recorder(cls, ctx) as rec:
             try:
-                fixed = [ctx.value(a) for a in case['fixed']]
-                res = getattr(cls, case['meth'])(*fixed, ctx.value(case['output']))
+                fixed = [ctx.value(a, f'f{i}') for i, a in enumerate(case['fixed'])]
+                res = getattr(cls, case['meth'])(*fixed, ctx.value(case['output'], 'out'))
                 out['ret'] = ctx.term(res)
             except Exception as e:  # noqa
                 out['exc'] = exc_name(e)
@@ -606,7 +653,13 @@ def run_out(case):
     obs, e1 = in_build(observed)
     if e1:
         return {'infra': repr(e1)}
-    return {'obs': obs}
+    # the same call with the same caller-owned argument objects in a second build
+    obs2, e2 = in_build(observed)
+    if e2:
+        return {'infra': repr(e2)}
+    n, changed = shared_report(shared)
+    return {'obs': obs, 'again_same': obs2 == obs, 'again': None if obs2 == obs else obs2,
+            'nshared': n, 'args_changed': changed}
 
 
 # ---- utils with recording leaves --------------------------------------------------------------------
